@@ -390,6 +390,9 @@ pub fn run_jobs_into(ck: &mut Check, jobs: Vec<Job>, blocked_is_violation: bool)
 
 /// Standard closing of a scenario: stash the verdict, tear the world down.
 pub fn finish(mut v: Verdict) -> Verdict {
+    for l in world::livelocks() {
+        v.violate("livelock/cooperative-yield", l);
+    }
     v.log = world::log_snapshot();
     for p in world::panics() {
         // a panic in library code is always recorded in the log; whether it is a
